@@ -114,7 +114,7 @@ def run_case(spec):
     M = Model(side)
     # clean scenarios: the only request made before the program runs is a plain breakpoint on a line that is executed once
     # before the loop and stays in every later set; every record that decides a stop is then created while the program runs
-    clean = rng.random() < 0.7
+    clean = rng.random() < 0.4
     ctx['start'] = 'clean' if clean else 'free'
     hist = []
     timing_classes = set()
